@@ -208,12 +208,11 @@ class SmtpRelayClient(RelayPoolClient):
             if not _refused(rcptto):
                 break
         else:
-            # Every recipient was refused. The one reply reported for the
-            # whole message must not turn a recipient that was only deferred
-            # into a permanent failure.
+            # Every recipient was refused. One reply can stand for the whole
+            # message only if it is the reply every recipient was given.
             for rcptto in rcpttos:
-                if rcptto.code.startswith('4'):
-                    raise SmtpRelayError.factory(rcptto)
+                if not rcptto == rcpttos[0]:
+                    return
             raise SmtpRelayError.factory(rcpttos[0])
         if _refused(data, ('2', '3')):
             raise SmtpRelayError.factory(data)
@@ -262,16 +261,28 @@ class SmtpRelayClient(RelayPoolClient):
             if data and not _refused(data, ('2', '3')):
                 self._send_empty_data()
             raise
+        all_refused = True
         for i, rcpt_reply in enumerate(rcpttos):
             rcpt = envelope.recipients[i]
             if _refused(rcpt_reply):
                 rcpt_results[rcpt] = SmtpRelayError.factory(rcpt_reply)
+            else:
+                all_refused = False
+        if all_refused:
+            # Refused with different replies: each recipient keeps its own.
+            if not _refused(data, ('2', '3')):
+                self._send_empty_data()
+            return False
+        return True
 
     def _deliver(self, result, envelope):
         rcpt_results = dict.fromkeys(envelope.recipients)
         try:
             envelope = self._handle_encoding(envelope)
-            self._send_envelope(rcpt_results, envelope)
+            if not self._send_envelope(rcpt_results, envelope):
+                result.set(rcpt_results)
+                self._rset()
+                return
             msg_result = self._send_message_data(envelope)
         except SmtpRelayError as e:
             result.set_exception(e)
